@@ -183,4 +183,116 @@ def cbor_load_parts(src_root, outdir):
     return out
 
 
-EXTRACTORS = {"cbor_load_parts": cbor_load_parts}
+# ----------------------------------------------------------------------------------------------------------------
+# cbor_copy: goto-instrument also exhausts memory (16 GB) when a loop contract is applied inside cbor_copy (four loops,
+# one per composite kind).  Each loop and the straight-line text around it is extracted verbatim:
+#   cbor_copy__<kind>_pre    text from the start of the innermost block that contains the loop up to 'for ('
+#   cbor_copy__<kind>_cond   the loop condition (init must be 'size_t i = 0', step must be 'i++')
+#   cbor_copy__<kind>_body   the loop body; a 'return' inside it returns from the wrapper with *verif_fell_through == false
+#   cbor_copy__<kind>_post   text after the loop up to the end of that block
+# Locals declared in the pre-region (res; it for maps) are handed on through pointer parameters by generated glue.
+# Dropped: the 'for' construct itself (loop rule = A2) and the switch dispatch (proved on the real function for the
+# leaf kinds, where the same switch is executed: copy_uint_*, copy_float_*, copy_def_*, copy_tag).
+COPY_LOOPS = [
+    # kind, locals exported by the pre-region (name, C type), declaration regexes that must be found in the pre-region
+    ("bytestring", [("res", "cbor_item_t*")], [r"cbor_item_t\s*\*\s*res\s*="]),
+    ("string", [("res", "cbor_item_t*")], [r"cbor_item_t\s*\*\s*res\s*="]),
+    ("array", [("res", "cbor_item_t*")], [r"cbor_item_t\s*\*\s*res\s*;"]),
+    ("map", [("res", "cbor_item_t*"), ("it", "struct cbor_pair*")], [r"cbor_item_t\s*\*\s*res\s*;", r"struct\s+cbor_pair\s*\*\s*it\s*="]),
+]
+
+
+def _enclosing_block_start(txt, pos):
+    """index of the '{' of the innermost block that contains position pos (comments/strings are not expected to hold braces)."""
+    depth = 0
+    j = pos
+    while j > 0:
+        j -= 1
+        if txt[j] == "}":
+            depth += 1
+        elif txt[j] == "{":
+            if depth == 0:
+                return j
+            depth -= 1
+    raise ExtractionFailed("no enclosing block")
+
+
+def cbor_copy_parts(src_root, outdir):
+    path = os.path.join(src_root, "cbor.c")
+    txt = open(path).read()
+    m = re.search(r"cbor_item_t\s*\*\s*cbor_copy\s*\(\s*cbor_item_t\s*\*\s*item\s*\)\s*\{", txt)
+    if not m:
+        raise ExtractionFailed("cbor_copy(cbor_item_t *item) not found in src/cbor.c")
+    b0 = m.end() - 1
+    b1 = _match_brace(txt, b0)
+    body = txt[b0 + 1:b1]
+    code = _strip_comments(body)
+    if len(code) != len(body) and re.search(r"[{}]", "".join(re.findall(r"/\*.*?\*/|//[^\n]*", body, flags=re.S))):
+        raise ExtractionFailed("cbor_copy: braces inside comments")
+    fors = [x.start() for x in re.finditer(r"\bfor\s*\(", body)]
+    if len(fors) != len(COPY_LOOPS) or re.search(r"\b(while|do|goto)\b", code):
+        raise ExtractionFailed("cbor_copy: expected exactly %d for loops and no other loop/goto, found %d" % (len(COPY_LOOPS), len(fors)))
+    # each loop must lie in the case arm of its kind (order of the arms in the switch)
+    order = [("bytestring", "CBOR_TYPE_BYTESTRING"), ("string", "CBOR_TYPE_STRING"), ("array", "CBOR_TYPE_ARRAY"), ("map", "CBOR_TYPE_MAP")]
+    out = os.path.join(outdir, "cbor_copy_parts.c")
+    with open(out, "w") as f:
+        f.write("/* GENERATED on every run by vlib/extract.py from %s - verbatim regions of cbor_copy */\n" % path)
+        f.write('#include "cbor.h"\n#include "cbor/internal/builder_callbacks.h"\n#include "cbor/internal/loaders.h"\n\n')
+        for (kind, locs, decls), pos, (okind, label) in zip(COPY_LOOPS, fors, order):
+            last_case = [c for c in re.finditer(r"\bcase\s+(\w+)\s*:", body[:pos])]
+            if not last_case or last_case[-1].group(1) != label:
+                raise ExtractionFailed("cbor_copy: loop %s is not in the arm 'case %s'" % (kind, label))
+            # header
+            h0 = body.index("(", pos)
+            depth, j = 0, h0
+            while True:
+                if body[j] == "(":
+                    depth += 1
+                elif body[j] == ")":
+                    depth -= 1
+                    if depth == 0:
+                        break
+                j += 1
+            header = body[h0 + 1:j]
+            parts = header.split(";")
+            if len(parts) != 3 or not re.fullmatch(r"\s*size_t\s+i\s*=\s*0\s*", parts[0]) or not re.fullmatch(r"\s*i\s*\+\+\s*|\s*\+\+\s*i\s*", parts[2]):
+                raise ExtractionFailed("cbor_copy: loop %s header is not 'size_t i = 0; <cond>; i++': %s" % (kind, header))
+            cond = parts[1]
+            lb = re.match(r"\s*\{", body[j + 1:])
+            if not lb:
+                raise ExtractionFailed("cbor_copy: loop %s body is not a block" % kind)
+            lb0 = j + 1 + lb.end() - 1
+            lb1 = _match_brace(body, lb0)
+            loop_body = body[lb0 + 1:lb1]
+            if re.search(r"\b(break|continue)\b", _strip_comments(loop_body)):
+                raise ExtractionFailed("cbor_copy: break/continue in loop %s" % kind)
+            blk0 = _enclosing_block_start(body, pos)
+            blk1 = _match_brace(body, blk0)
+            pre, post = body[blk0 + 1:pos], body[lb1 + 1:blk1]
+            for d in decls:
+                if not re.search(d, _strip_comments(pre)):
+                    raise ExtractionFailed("cbor_copy: pre-region of loop %s no longer declares /%s/" % (kind, d))
+            found = set(re.findall(r"^\s*(?:struct\s+\w+|size_t|bool|int|cbor_item_t)\s*\*?\s*(\w+)\s*(?:=|;)", _strip_comments(pre), flags=re.M))
+            if found != {n for n, _ in locs}:
+                raise ExtractionFailed("cbor_copy: pre-region of loop %s declares %r, expected %r" % (kind, sorted(found), [n for n, _ in locs]))
+            if "case" in re.findall(r"\b\w+\b", _strip_comments(pre + post)):
+                raise ExtractionFailed("cbor_copy: a case label inside the regions of loop %s" % kind)
+            in_params = "".join(", %s %s" % (t, n) for n, t in locs)
+            out_params = "".join(", %s* verif_%s" % (t, n) for n, t in locs)
+            f.write("/* ---- %s ---- */\n" % kind)
+            f.write("cbor_item_t* cbor_copy__%s_pre(cbor_item_t* item%s, bool* verif_fell_through) {\n  *verif_fell_through = false;\n" % (kind, out_params))
+            f.write(pre)
+            f.write("\n  /* generated glue */\n" + "".join("  *verif_%s = %s;\n" % (n, n) for n, _ in locs))
+            f.write("  *verif_fell_through = true;\n  return NULL;\n}\n\n")
+            f.write("bool cbor_copy__%s_cond(cbor_item_t* item%s, size_t i) {\n  return (%s);\n}\n\n" % (kind, in_params, cond.strip()))
+            f.write("cbor_item_t* cbor_copy__%s_body(cbor_item_t* item%s, size_t i, cbor_item_t** verif_res, bool* verif_fell_through) {\n"
+                    "  *verif_fell_through = false;\n  {\n" % (kind, in_params))
+            f.write(loop_body)
+            f.write("\n  }\n  /* generated glue */\n  *verif_res = res;\n  *verif_fell_through = true;\n  return NULL;\n}\n\n")
+            f.write("cbor_item_t* cbor_copy__%s_post(cbor_item_t* item%s) {\n" % (kind, in_params))
+            f.write(post)
+            f.write("\n}\n\n")
+    return out
+
+
+EXTRACTORS = {"cbor_load_parts": cbor_load_parts, "cbor_copy_parts": cbor_copy_parts}
